@@ -93,7 +93,7 @@ type IntegerPartitionIterator struct {
 //The integer partitons are generated in reverse lexicographic order.
 func IntegerPartitions(n int) *IntegerPartitionIterator {
 	if n == 0 {
-		return &IntegerPartitionIterator{a: nil, m: 0, q: -1}
+		return &IntegerPartitionIterator{a: nil, m: 0, q: -2}
 	}
 	a := make([]int, n)
 	for i := 1; i < n; i++ {
@@ -106,7 +106,7 @@ func IntegerPartitions(n int) *IntegerPartitionIterator {
 //Next tries to advance iter to the next integer partition, returning true if there is one and false if there isn't.
 func (iter *IntegerPartitionIterator) Next() bool {
 	if iter.q == -2 {
-		if iter.a[0] == 1 {
+		if len(iter.a) == 0 || iter.a[0] == 1 {
 			iter.q = -1
 		} else {
 			iter.q = 0
